@@ -258,7 +258,7 @@ pub fn run(args: &Args) -> i32 {
     };
     let seeds = seeds::all();
     let b = if thorough {
-        Budget { core: 150_000, feature: 12_000, bench: 2_500, max_depth: 6 }
+        Budget { core: 40_000, feature: 6_000, bench: 1_500, max_depth: 6 }
     } else {
         Budget { core: 1_200, feature: 250, bench: 60, max_depth: 4 }
     };
